@@ -1,23 +1,37 @@
 // Generator for lean/PprofVerif/Gen/FetchConsts.lean (property C16).
 //
-// It reads internal/driver/fetch.go of the CURRENT tree and translates the facts the Lean model
-// Model/Fetch.lean assumes about the shape of chunkedGrab and concurrentGrab:
+// It reads internal/driver/fetch.go of the CURRENT tree and extracts the FACTS that the Lean
+// model Model/Fetch.lean and the theorems of Props/C16.lean rest on — not statement sequences:
 //
-//   - the value of `const chunkSize` inside chunkedGrab (evaluated as a Go constant expression);
-//   - the chunk loop is `for start := 0; start < len(sources); start += chunkSize` with
-//     `end := start + chunkSize`, clipped by `if end > len(sources) { end = len(sources) }`, and the
-//     chunk handed to concurrentGrab is `sources[start:end]`;
-//   - concurrentGrab does `wg.Add(len(sources))`, starts one goroutine per element of `sources`
-//     that receives `&sources[i]` and defers `wg.Done()`, and calls `wg.Wait()` BEFORE the loop
-//     that collects the results (the barrier of the model).
+//	(a) the chunk size: the value of the integer constant declared in chunkedGrab;
+//	(b) chunking: the chunks handed to concurrentGrab are consecutive, non-overlapping, cover all
+//	    sources in order and have at most `span` elements, each chunk starting `step` after the
+//	    previous one.  Two loop shapes are recognised:
+//	      index-step : for X := 0; X < len(S); X += A { E := X + B; clip E to len(S); concurrentGrab(S[X:E]) }
+//	                   → step = A, span = B   (the theorem needs A = B ≥ 1)
+//	      slice-peel : for R := S; len(R) > 0; { C := R[:min(K, len(R))]; R = R[len(C):]; concurrentGrab(C) }
+//	                   → step = span = K by construction
+//	(c) barrier and collection by index in concurrentGrab.  Recognised:
+//	      waitgroup / slot-pointer : wg.Add(len(S)); one `go func(s *T){ defer wg.Done(); … }(&S[i])`
+//	                   per element; wg.Wait() before the first later loop over the results
+//	      channel-count / index-tagged : done := make(chan T, len(S)); one goroutine per element that
+//	                   is passed the range index and sends on done; a loop that runs exactly len(S)
+//	                   times, each time receiving r from done and storing it at [r.<field>]
 //
-// If any of these shapes is not recognised the generator fails (the Gen file is then deleted by
-// bin/check and the obligations that import it are reported as broken) — it never guesses.
+// Anything that is not recognised is emitted as "unknown"/none — NOT as a failure: the theorems are
+// stated conditionally ("when recognised …") and the same facts are checked dynamically by
+// harness/c16.go on every run (command-line order of the merge, every source fetched exactly
+// once, no fetch of a later chunk before the earlier chunks completed, at most chunkSize fetches
+// in flight).  A shape that IS recognised but contradicts the model (step ≠ span, size 0) is
+// emitted as it is and makes the regenerated-fact theorem `extracted_chunking_wellformed` fail.
+// The generator itself fails only when fetch.go cannot be parsed.
 package main
 
 import (
 	"fmt"
 	"go/ast"
+	"go/constant"
+	"go/parser"
 	"go/token"
 	"go/types"
 	"strings"
@@ -36,41 +50,126 @@ func fcFunc(f *ast.File, name string) *ast.FuncDecl {
 
 func fcNorm(s string) string { return strings.Join(strings.Fields(s), " ") }
 
-func genFetchConsts(e *Env) (string, error) {
-	const rel = "internal/driver/fetch.go"
-	fset, file, err := parseFile(e, rel)
+// fcEval evaluates a constant expression that may mention the constants declared in decls
+// ("name = expr" lines). Returns the value as a decimal natural number, or "" when unknown.
+func fcEval(decls []string, expr string) string {
+	var b strings.Builder
+	b.WriteString("package p\n")
+	for _, d := range decls {
+		b.WriteString("const " + d + "\n")
+	}
+	b.WriteString("const fcValue = (" + expr + ")\n")
+	fset := token.NewFileSet()
+	f, err := parser.ParseFile(fset, "p.go", b.String(), 0)
 	if err != nil {
-		return "", err
+		return ""
 	}
-	txt := func(n ast.Node) string { return fcNorm(src(fset, n)) }
+	conf := types.Config{Error: func(error) {}}
+	pkg, _ := conf.Check("p", fset, []*ast.File{f}, nil)
+	if pkg == nil {
+		return ""
+	}
+	o, ok := pkg.Scope().Lookup("fcValue").(*types.Const)
+	if !ok || o.Val() == nil || o.Val().Kind() != constant.Int {
+		return ""
+	}
+	s := o.Val().ExactString()
+	for _, ch := range s {
+		if ch < '0' || ch > '9' {
+			return ""
+		}
+	}
+	return s
+}
 
-	// ---- chunkedGrab ----
+type fcFacts struct {
+	chunkSize, chunkStep, chunkSpan string // "" = unknown
+	chunkConst                      string // source text of the constant (comment only)
+	chunkShape                      string
+	barrier, collect                string
+	notes                           []string
+}
+
+// assigned reports whether any statement of list (except those in skip) assigns/incs one of names.
+func fcAssigned(fset *token.FileSet, list []ast.Stmt, skip map[ast.Stmt]bool, names map[string]bool) string {
+	hit := ""
+	for _, st := range list {
+		if skip[st] {
+			continue
+		}
+		ast.Inspect(st, func(n ast.Node) bool {
+			switch x := n.(type) {
+			case *ast.AssignStmt:
+				for _, l := range x.Lhs {
+					if id, ok := l.(*ast.Ident); ok && names[id.Name] {
+						hit = id.Name
+					}
+				}
+			case *ast.IncDecStmt:
+				if id, ok := x.X.(*ast.Ident); ok && names[id.Name] {
+					hit = id.Name
+				}
+			}
+			return true
+		})
+	}
+	return hit
+}
+
+func fcCallsOf(list []ast.Stmt, fn string) []*ast.CallExpr {
+	var calls []*ast.CallExpr
+	for _, st := range list {
+		ast.Inspect(st, func(n ast.Node) bool {
+			if c, ok := n.(*ast.CallExpr); ok {
+				if id, ok := c.Fun.(*ast.Ident); ok && id.Name == fn {
+					calls = append(calls, c)
+				}
+			}
+			return true
+		})
+	}
+	return calls
+}
+
+func fcChunked(fset *token.FileSet, file *ast.File, fa *fcFacts) {
+	txt := func(n ast.Node) string { return fcNorm(src(fset, n)) }
+	fa.chunkShape = "unknown"
 	cg := fcFunc(file, "chunkedGrab")
-	if cg == nil {
-		return "", fmt.Errorf("%s: func chunkedGrab not found", rel)
+	if cg == nil || cg.Type.Params == nil || len(cg.Type.Params.List) == 0 || len(cg.Type.Params.List[0].Names) == 0 {
+		fa.notes = append(fa.notes, "func chunkedGrab(sources, …) not found")
+		return
 	}
-	if cg.Type.Params == nil || len(cg.Type.Params.List) == 0 || len(cg.Type.Params.List[0].Names) == 0 ||
-		cg.Type.Params.List[0].Names[0].Name != "sources" {
-		return "", fmt.Errorf("chunkedGrab: first parameter is not `sources`")
+	S := cg.Type.Params.List[0].Names[0].Name
+	// (a) integer constants declared in the function
+	var decls []string
+	var names []string
+	for _, st := range cg.Body.List {
+		ds, ok := st.(*ast.DeclStmt)
+		if !ok {
+			continue
+		}
+		gd, ok := ds.Decl.(*ast.GenDecl)
+		if !ok || gd.Tok != token.CONST {
+			continue
+		}
+		for _, sp := range gd.Specs {
+			vs := sp.(*ast.ValueSpec)
+			for i, n := range vs.Names {
+				if i < len(vs.Values) {
+					decls = append(decls, n.Name+" = "+src(fset, vs.Values[i]))
+					names = append(names, n.Name)
+					if fa.chunkConst == "" {
+						fa.chunkConst = n.Name + " = " + txt(vs.Values[i])
+					}
+				}
+			}
+		}
 	}
-	var chunkExpr ast.Expr
+	// the loop
 	var loop *ast.ForStmt
 	nloops := 0
 	for _, st := range cg.Body.List {
 		switch s := st.(type) {
-		case *ast.DeclStmt:
-			gd, ok := s.Decl.(*ast.GenDecl)
-			if !ok || gd.Tok != token.CONST {
-				continue
-			}
-			for _, sp := range gd.Specs {
-				vs := sp.(*ast.ValueSpec)
-				for i, n := range vs.Names {
-					if n.Name == "chunkSize" && i < len(vs.Values) {
-						chunkExpr = vs.Values[i]
-					}
-				}
-			}
 		case *ast.ForStmt:
 			loop = s
 			nloops++
@@ -78,141 +177,399 @@ func genFetchConsts(e *Env) (string, error) {
 			nloops++
 		}
 	}
-	if chunkExpr == nil {
-		return "", fmt.Errorf("chunkedGrab: `const chunkSize = …` not found")
+	if loop == nil || nloops != 1 {
+		fa.notes = append(fa.notes, fmt.Sprintf("chunkedGrab: %d top-level loops, expected one", nloops))
+		return
 	}
-	tv, err := types.Eval(fset, nil, token.NoPos, src(fset, chunkExpr))
-	if err != nil || tv.Value == nil {
-		return "", fmt.Errorf("chunkedGrab: chunkSize %q is not a constant expression: %v", txt(chunkExpr), err)
+	calls := fcCallsOf(loop.Body.List, "concurrentGrab")
+	if len(calls) != 1 || len(calls[0].Args) == 0 {
+		fa.notes = append(fa.notes, fmt.Sprintf("chunkedGrab: %d calls of concurrentGrab in the loop, expected one", len(calls)))
+		return
 	}
-	chunk := tv.Value.ExactString()
-	for _, ch := range chunk {
-		if ch < '0' || ch > '9' {
-			return "", fmt.Errorf("chunkedGrab: chunkSize = %s is not a natural number", chunk)
+	arg := txt(calls[0].Args[0])
+	lenS := "len(" + S + ")"
+
+	// --- index-step ---
+	if as, ok := loop.Init.(*ast.AssignStmt); ok && as.Tok == token.DEFINE && len(as.Lhs) == 1 && len(as.Rhs) == 1 && txt(as.Rhs[0]) == "0" && loop.Post != nil && loop.Cond != nil {
+		X := txt(as.Lhs[0])
+		if txt(loop.Cond) != X+" < "+lenS {
+			fa.notes = append(fa.notes, "chunkedGrab: index loop condition is "+txt(loop.Cond))
+			return
+		}
+		stepExpr := ""
+		if ps, ok := loop.Post.(*ast.AssignStmt); ok && len(ps.Lhs) == 1 && len(ps.Rhs) == 1 && txt(ps.Lhs[0]) == X {
+			switch ps.Tok {
+			case token.ADD_ASSIGN:
+				stepExpr = src(fset, ps.Rhs[0])
+			case token.ASSIGN:
+				if be, ok := ps.Rhs[0].(*ast.BinaryExpr); ok && be.Op == token.ADD && txt(be.X) == X {
+					stepExpr = src(fset, be.Y)
+				}
+			}
+		}
+		if stepExpr == "" {
+			fa.notes = append(fa.notes, "chunkedGrab: index loop post statement is "+txt(loop.Post))
+			return
+		}
+		// E := X + B  (possibly already clipped with min), clip, call on S[X:E]
+		skip := map[ast.Stmt]bool{}
+		E, spanExpr, clipped := "", "", false
+		for _, st := range loop.Body.List {
+			a, ok := st.(*ast.AssignStmt)
+			if ok && E == "" && a.Tok == token.DEFINE && len(a.Lhs) == 1 && len(a.Rhs) == 1 {
+				rhs := a.Rhs[0]
+				if c, ok := rhs.(*ast.CallExpr); ok && txt(c.Fun) == "min" && len(c.Args) == 2 {
+					for i := 0; i < 2; i++ {
+						if txt(c.Args[1-i]) == lenS {
+							rhs, clipped = c.Args[i], true
+						}
+					}
+				}
+				if be, ok := rhs.(*ast.BinaryExpr); ok && be.Op == token.ADD && txt(be.X) == X {
+					E, spanExpr = txt(a.Lhs[0]), src(fset, be.Y)
+					skip[st] = true
+					continue
+				}
+				clipped = false
+			}
+			if E != "" && !clipped {
+				t := txt(st)
+				if t == "if "+E+" > "+lenS+" { "+E+" = "+lenS+" }" || t == "if "+E+" >= "+lenS+" { "+E+" = "+lenS+" }" ||
+					t == E+" = min("+E+", "+lenS+")" || t == E+" = min("+lenS+", "+E+")" {
+					clipped = true
+					skip[st] = true
+				}
+			}
+		}
+		if E == "" || !clipped {
+			fa.notes = append(fa.notes, "chunkedGrab: `end := start + …` clipped to len(sources) not found in the index loop")
+			return
+		}
+		if arg != S+"["+X+":"+E+"]" {
+			fa.notes = append(fa.notes, "chunkedGrab: concurrentGrab is called on "+arg)
+			return
+		}
+		if w := fcAssigned(fset, loop.Body.List, skip, map[string]bool{X: true, E: true, S: true}); w != "" {
+			fa.notes = append(fa.notes, "chunkedGrab: the loop body assigns "+w)
+			return
+		}
+		fa.chunkShape = "index-step"
+		fa.chunkStep = fcEval(decls, stepExpr)
+		fa.chunkSpan = fcEval(decls, spanExpr)
+		fa.chunkSize = fa.chunkSpan
+		return
+	}
+
+	// --- slice-peel ---
+	if as, ok := loop.Init.(*ast.AssignStmt); ok && as.Tok == token.DEFINE && len(as.Lhs) == 1 && len(as.Rhs) == 1 && txt(as.Rhs[0]) == S && loop.Post == nil && loop.Cond != nil {
+		R := txt(as.Lhs[0])
+		if c := txt(loop.Cond); c != "len("+R+") > 0" && c != "len("+R+") != 0" && c != "0 < len("+R+")" {
+			fa.notes = append(fa.notes, "chunkedGrab: peeling loop condition is "+c)
+			return
+		}
+		skip := map[ast.Stmt]bool{}
+		C, K, advanced := "", "", false
+		for _, st := range loop.Body.List {
+			a, ok := st.(*ast.AssignStmt)
+			if !ok || len(a.Lhs) != 1 || len(a.Rhs) != 1 {
+				continue
+			}
+			if C == "" && a.Tok == token.DEFINE {
+				if se, ok := a.Rhs[0].(*ast.SliceExpr); ok && txt(se.X) == R && se.Low == nil && se.High != nil && !se.Slice3 {
+					if c, ok := se.High.(*ast.CallExpr); ok && txt(c.Fun) == "min" && len(c.Args) == 2 {
+						for i := 0; i < 2; i++ {
+							if txt(c.Args[1-i]) == "len("+R+")" {
+								C, K = txt(a.Lhs[0]), src(fset, c.Args[i])
+								skip[st] = true
+							}
+						}
+					}
+				}
+				continue
+			}
+			if C != "" && !advanced && a.Tok == token.ASSIGN && txt(a.Lhs[0]) == R && txt(a.Rhs[0]) == R+"[len("+C+"):]" {
+				advanced = true
+				skip[st] = true
+			}
+		}
+		if C == "" || !advanced {
+			fa.notes = append(fa.notes, "chunkedGrab: `chunk := rest[:min(K, len(rest))]; rest = rest[len(chunk):]` not found in the peeling loop")
+			return
+		}
+		if arg != C {
+			fa.notes = append(fa.notes, "chunkedGrab: concurrentGrab is called on "+arg)
+			return
+		}
+		if w := fcAssigned(fset, loop.Body.List, skip, map[string]bool{R: true, C: true, S: true}); w != "" {
+			fa.notes = append(fa.notes, "chunkedGrab: the loop body assigns "+w)
+			return
+		}
+		fa.chunkShape = "slice-peel"
+		fa.chunkStep = fcEval(decls, K)
+		fa.chunkSpan = fa.chunkStep
+		fa.chunkSize = fa.chunkSpan
+		return
+	}
+	fa.notes = append(fa.notes, "chunkedGrab: loop header "+fcNorm(fmt.Sprintf("for %s; %s; %s", nodeTxt(fset, loop.Init), nodeTxt(fset, loop.Cond), nodeTxt(fset, loop.Post)))+" not recognised")
+	// the constant alone is still a fact when there is exactly one
+	if len(names) == 1 {
+		fa.chunkSize = fcEval(decls, names[0])
+	}
+}
+
+func nodeTxt(fset *token.FileSet, n ast.Node) string {
+	if n == nil {
+		return ""
+	}
+	return src(fset, n)
+}
+
+// fcIsLoopOver: `for … := range S`, `for range S`, `for range len(S)` or `for i := 0; i < len(S); i++`
+func fcLoopOver(fset *token.FileSet, st ast.Stmt, S string) (body *ast.BlockStmt, key string, ok bool) {
+	txt := func(n ast.Node) string { return fcNorm(src(fset, n)) }
+	switch l := st.(type) {
+	case *ast.RangeStmt:
+		x := txt(l.X)
+		if x == S || x == "len("+S+")" {
+			k := ""
+			if l.Key != nil {
+				k = txt(l.Key)
+			}
+			return l.Body, k, true
+		}
+	case *ast.ForStmt:
+		if l.Init != nil && l.Cond != nil && l.Post != nil {
+			if as, ok2 := l.Init.(*ast.AssignStmt); ok2 && len(as.Lhs) == 1 && len(as.Rhs) == 1 && txt(as.Rhs[0]) == "0" {
+				k := txt(as.Lhs[0])
+				if txt(l.Cond) == k+" < len("+S+")" && txt(l.Post) == k+"++" {
+					return l.Body, k, true
+				}
+			}
 		}
 	}
-	if loop == nil || nloops != 1 {
-		return "", fmt.Errorf("chunkedGrab: expected exactly one top-level for loop, found %d", nloops)
+	return nil, "", false
+}
+
+func fcConcurrent(fset *token.FileSet, file *ast.File, fa *fcFacts) {
+	txt := func(n ast.Node) string { return fcNorm(src(fset, n)) }
+	fa.barrier, fa.collect = "unknown", "unknown"
+	cc := fcFunc(file, "concurrentGrab")
+	if cc == nil || cc.Type.Params == nil || len(cc.Type.Params.List) == 0 || len(cc.Type.Params.List[0].Names) == 0 {
+		fa.notes = append(fa.notes, "func concurrentGrab(sources, …) not found")
+		return
 	}
-	if loop.Init == nil || loop.Cond == nil || loop.Post == nil {
-		return "", fmt.Errorf("chunkedGrab: loop header incomplete")
+	S := cc.Type.Params.List[0].Names[0].Name
+	list := cc.Body.List
+	// the spawn loop: a loop over S whose body is exactly one go statement
+	spawn := -1
+	var gs *ast.GoStmt
+	key := ""
+	for i, st := range list {
+		if body, k, ok := fcLoopOver(fset, st, S); ok && len(body.List) == 1 {
+			if g, ok := body.List[0].(*ast.GoStmt); ok {
+				spawn, gs, key = i, g, k
+				break
+			}
+		}
 	}
-	hdr := fmt.Sprintf("for %s; %s; %s", txt(loop.Init), txt(loop.Cond), txt(loop.Post))
-	const wantHdr = "for start := 0; start < len(sources); start += chunkSize"
-	if hdr != wantHdr {
-		return "", fmt.Errorf("chunkedGrab: loop header is %q, the model assumes %q", hdr, wantHdr)
+	if spawn < 0 || key == "" {
+		fa.notes = append(fa.notes, "concurrentGrab: no loop over the sources that starts one goroutine per element")
+		return
 	}
-	if len(loop.Body.List) < 3 {
-		return "", fmt.Errorf("chunkedGrab: loop body too short")
+	fl, ok := gs.Call.Fun.(*ast.FuncLit)
+	if !ok || len(fl.Body.List) == 0 {
+		fa.notes = append(fa.notes, "concurrentGrab: the goroutine is not a function literal")
+		return
 	}
-	if got, want := txt(loop.Body.List[0]), "end := start + chunkSize"; got != want {
-		return "", fmt.Errorf("chunkedGrab: first loop statement is %q, the model assumes %q", got, want)
-	}
-	if got, want := txt(loop.Body.List[1]), "if end > len(sources) { end = len(sources) }"; got != want {
-		return "", fmt.Errorf("chunkedGrab: second loop statement is %q, the model assumes %q", got, want)
-	}
-	// the chunk handed on is sources[start:end], and start/end are not assigned elsewhere in the body
-	ncall := 0
-	bad := ""
-	for i, st := range loop.Body.List {
-		ast.Inspect(st, func(n ast.Node) bool {
-			switch x := n.(type) {
-			case *ast.CallExpr:
-				if id, ok := x.Fun.(*ast.Ident); ok && id.Name == "concurrentGrab" {
-					ncall++
-					if len(x.Args) == 0 || txt(x.Args[0]) != "sources[start:end]" {
-						bad = "concurrentGrab is not called on sources[start:end]"
+	// only declarations / make() may stand between the barrier and the scan: nothing that could reorder
+	harmless := func(st ast.Stmt) bool {
+		switch s := st.(type) {
+		case *ast.DeclStmt:
+			return true
+		case *ast.AssignStmt:
+			if s.Tok != token.DEFINE {
+				return false
+			}
+			for _, r := range s.Rhs {
+				c, ok := r.(*ast.CallExpr)
+				if !ok || txt(c.Fun) != "make" {
+					if _, lit := r.(*ast.BasicLit); !lit {
+						return false
 					}
-				}
-			case *ast.AssignStmt:
-				if i < 2 {
-					return true
-				}
-				for _, l := range x.Lhs {
-					if id, ok := l.(*ast.Ident); ok && (id.Name == "start" || id.Name == "end" || id.Name == "sources") {
-						bad = "loop body assigns " + id.Name
-					}
-				}
-			case *ast.IncDecStmt:
-				if id, ok := x.X.(*ast.Ident); ok && (id.Name == "start" || id.Name == "end") {
-					bad = "loop body changes " + id.Name
 				}
 			}
 			return true
-		})
-	}
-	if bad != "" {
-		return "", fmt.Errorf("chunkedGrab: %s", bad)
-	}
-	if ncall != 1 {
-		return "", fmt.Errorf("chunkedGrab: expected one call of concurrentGrab in the loop, found %d", ncall)
+		}
+		return false
 	}
 
-	// ---- concurrentGrab: Add(len) … go per element on &sources[i] with defer Done … Wait … collection loop ----
-	cc := fcFunc(file, "concurrentGrab")
-	if cc == nil {
-		return "", fmt.Errorf("%s: func concurrentGrab not found", rel)
+	// --- waitgroup / slot-pointer ---
+	addAt := -1
+	for i := 0; i < spawn; i++ {
+		if t := txt(list[i]); strings.HasSuffix(t, ".Add(len("+S+"))") {
+			addAt = i
+		}
 	}
-	const (
-		stAdd = iota
-		stSpawn
-		stWait
-		stScan
-		stDone
-	)
-	state := stAdd
-	for _, st := range cc.Body.List {
-		t := txt(st)
-		switch state {
-		case stAdd:
-			if t == "wg.Add(len(sources))" {
-				state = stSpawn
+	if addAt >= 0 {
+		wg := strings.TrimSuffix(txt(list[addAt]), ".Add(len("+S+"))")
+		if txt(fl.Body.List[0]) == "defer "+wg+".Done()" && len(gs.Call.Args) == 1 && txt(gs.Call.Args[0]) == "&"+S+"["+key+"]" &&
+			spawn+1 < len(list) && txt(list[spawn+1]) == wg+".Wait()" {
+			fa.barrier = "waitgroup"
+			// the goroutine writes only through its pointer parameter; nothing reorders before the scan
+			for i := spawn + 2; i < len(list); i++ {
+				if _, _, isScan := fcLoopOver(fset, list[i], S); isScan {
+					fa.collect = "slot-pointer"
+					break
+				}
+				if !harmless(list[i]) {
+					fa.notes = append(fa.notes, "concurrentGrab: statement between wg.Wait() and the collection loop: "+txt(list[i]))
+					break
+				}
 			}
-		case stSpawn:
-			rs, ok := st.(*ast.RangeStmt)
-			if !ok {
-				return "", fmt.Errorf("concurrentGrab: statement after wg.Add is %q, expected the goroutine loop", t)
+			if fa.collect == "unknown" && len(fa.notes) == 0 {
+				fa.notes = append(fa.notes, "concurrentGrab: no collection loop over the sources after wg.Wait()")
 			}
-			if txt(rs.X) != "sources" || rs.Key == nil || len(rs.Body.List) != 1 {
-				return "", fmt.Errorf("concurrentGrab: goroutine loop has an unexpected shape: %q", t)
-			}
-			gs, ok := rs.Body.List[0].(*ast.GoStmt)
-			if !ok || len(gs.Call.Args) != 1 || txt(gs.Call.Args[0]) != "&sources["+txt(rs.Key)+"]" {
-				return "", fmt.Errorf("concurrentGrab: loop body is not `go func(s *profileSource){…}(&sources[i])`: %q", t)
-			}
-			fl, ok := gs.Call.Fun.(*ast.FuncLit)
-			if !ok || len(fl.Body.List) == 0 || txt(fl.Body.List[0]) != "defer wg.Done()" {
-				return "", fmt.Errorf("concurrentGrab: goroutine does not start with `defer wg.Done()`")
-			}
-			state = stWait
-		case stWait:
-			if t != "wg.Wait()" {
-				return "", fmt.Errorf("concurrentGrab: statement after the goroutine loop is %q, expected wg.Wait()", t)
-			}
-			state = stScan
-		case stScan:
-			if rs, ok := st.(*ast.RangeStmt); ok && txt(rs.X) == "sources" {
-				state = stDone
+			return
+		}
+		fa.notes = append(fa.notes, "concurrentGrab: WaitGroup found but Done/&sources[i]/Wait sequence not recognised")
+		return
+	}
+
+	// --- channel-count / index-tagged ---
+	ch := ""
+	for i := 0; i < spawn; i++ {
+		if as, ok := list[i].(*ast.AssignStmt); ok && as.Tok == token.DEFINE && len(as.Lhs) == 1 && len(as.Rhs) == 1 {
+			if c, ok := as.Rhs[0].(*ast.CallExpr); ok && txt(c.Fun) == "make" && len(c.Args) == 2 && txt(c.Args[1]) == "len("+S+")" {
+				if _, isChan := c.Args[0].(*ast.ChanType); isChan {
+					ch = txt(as.Lhs[0])
+				}
 			}
 		}
 	}
-	if state != stDone {
-		return "", fmt.Errorf("concurrentGrab: Add/go/Wait/collect sequence not recognised (stopped in state %d)", state)
+	if ch == "" {
+		fa.notes = append(fa.notes, "concurrentGrab: neither a WaitGroup nor a result channel of capacity len(sources)")
+		return
 	}
+	// the goroutine is passed the loop index and its last statement sends on the channel
+	passesIndex := false
+	for _, a := range gs.Call.Args {
+		if txt(a) == key {
+			passesIndex = true
+		}
+	}
+	last, isSend := fl.Body.List[len(fl.Body.List)-1].(*ast.SendStmt)
+	nsend := 0
+	ast.Inspect(fl.Body, func(n ast.Node) bool {
+		if _, ok := n.(*ast.SendStmt); ok {
+			nsend++
+		}
+		return true
+	})
+	if !passesIndex || !isSend || txt(last.Chan) != ch || nsend != 1 {
+		fa.notes = append(fa.notes, "concurrentGrab: goroutine does not take the index and end with exactly one send on "+ch)
+		return
+	}
+	// the receive loop: runs len(S) times; r := <-ch; Y[r.f] = …
+	if spawn+1 >= len(list) {
+		return
+	}
+	recvAt := -1
+	for i := spawn + 1; i < len(list); i++ {
+		if _, _, isLoop := fcLoopOver(fset, list[i], S); isLoop {
+			recvAt = i
+			break
+		}
+		if !harmless(list[i]) {
+			fa.notes = append(fa.notes, "concurrentGrab: statement between the goroutine loop and the receive loop: "+txt(list[i]))
+			return
+		}
+	}
+	if recvAt < 0 {
+		fa.notes = append(fa.notes, "concurrentGrab: no loop receiving len(sources) results")
+		return
+	}
+	body, _, _ := fcLoopOver(fset, list[recvAt], S)
+	if len(body.List) != 2 {
+		fa.notes = append(fa.notes, "concurrentGrab: receive loop body has an unexpected shape")
+		return
+	}
+	r := ""
+	if as, ok := body.List[0].(*ast.AssignStmt); ok && as.Tok == token.DEFINE && len(as.Lhs) == 1 && len(as.Rhs) == 1 && txt(as.Rhs[0]) == "<-"+ch {
+		r = txt(as.Lhs[0])
+	}
+	if r == "" {
+		fa.notes = append(fa.notes, "concurrentGrab: receive loop does not start with `r := <-"+ch+"`")
+		return
+	}
+	fa.barrier = "channel-count"
+	if as, ok := body.List[1].(*ast.AssignStmt); ok && as.Tok == token.ASSIGN && len(as.Lhs) == 1 {
+		if ix, ok := as.Lhs[0].(*ast.IndexExpr); ok {
+			if sel, ok := ix.Index.(*ast.SelectorExpr); ok && txt(sel.X) == r {
+				// nothing reorders between the receive loop and the scan
+				for i := recvAt + 1; i < len(list); i++ {
+					if _, isRange := list[i].(*ast.RangeStmt); isRange {
+						fa.collect = "index-tagged"
+						break
+					}
+					if _, isFor := list[i].(*ast.ForStmt); isFor {
+						fa.collect = "index-tagged"
+						break
+					}
+					if !harmless(list[i]) {
+						fa.notes = append(fa.notes, "concurrentGrab: statement between the receive loop and the collection loop: "+txt(list[i]))
+						break
+					}
+				}
+				return
+			}
+		}
+	}
+	fa.notes = append(fa.notes, "concurrentGrab: received results are not filed by an index field")
+}
 
+func genFetchConsts(e *Env) (string, error) {
+	const rel = "internal/driver/fetch.go"
+	fset, file, err := parseFile(e, rel)
+	if err != nil {
+		return "", err
+	}
+	fa := &fcFacts{}
+	fcChunked(fset, file, fa)
+	fcConcurrent(fset, file, fa)
+
+	opt := func(v string) string {
+		if v == "" {
+			return "none"
+		}
+		return "some " + v
+	}
 	var b strings.Builder
 	b.WriteString("/- GENERATED by /verif/tools/extract/fetchconsts.go from internal/driver/fetch.go\n")
 	b.WriteString("   (chunkedGrab, concurrentGrab). Regenerated from the current source on every `bin/check C16`;\n")
-	b.WriteString("   do not edit. -/\n")
+	b.WriteString("   do not edit.  `none` / \"unknown\" = shape not recognised (then only the dynamic checks of\n")
+	b.WriteString("   harness/c16.go cover that fact). -/\n")
 	b.WriteString("namespace PV.Gen.FetchConsts\n\n")
-	fmt.Fprintf(&b, "/-- `const chunkSize = %s` in chunkedGrab -/\n", txt(chunkExpr))
-	fmt.Fprintf(&b, "def chunkSize : Nat := %s\n\n", chunk)
-	b.WriteString("/-- recognised loop of chunkedGrab (`end := start + chunkSize`, clipped to `len(sources)`;\n")
-	b.WriteString("    `concurrentGrab(sources[start:end], …)`) — the shape `Fetch.chunkLoop` models -/\n")
-	fmt.Fprintf(&b, "def chunkLoopHeader : String := %s\n\n", leanStr(hdr))
-	b.WriteString("/-- concurrentGrab: `wg.Add(len(sources))`, one goroutine per `&sources[i]` deferring `wg.Done()`,\n")
-	b.WriteString("    `wg.Wait()` before the loop that collects the results -/\n")
-	b.WriteString("def barrierBeforeScan : Bool := true\n\n")
+	fmt.Fprintf(&b, "/-- chunk size of chunkedGrab (source: `const %s`) -/\n", fa.chunkConst)
+	fmt.Fprintf(&b, "def chunkSize? : Option Nat := %s\n\n", opt(fa.chunkSize))
+	b.WriteString("/-- recognised shape of the chunk loop: \"index-step\" | \"slice-peel\" | \"unknown\" -/\n")
+	fmt.Fprintf(&b, "def chunkShape : String := %s\n\n", leanStr(fa.chunkShape))
+	b.WriteString("/-- distance between the starts of consecutive chunks -/\n")
+	fmt.Fprintf(&b, "def chunkStep? : Option Nat := %s\n\n", opt(fa.chunkStep))
+	b.WriteString("/-- maximal length of a chunk (before clipping to the end of the list) -/\n")
+	fmt.Fprintf(&b, "def chunkSpan? : Option Nat := %s\n\n", opt(fa.chunkSpan))
+	b.WriteString("/-- how concurrentGrab waits for all fetches of a chunk: \"waitgroup\" | \"channel-count\" | \"unknown\" -/\n")
+	fmt.Fprintf(&b, "def barrierShape : String := %s\n\n", leanStr(fa.barrier))
+	b.WriteString("/-- how results reach their slot: \"slot-pointer\" | \"index-tagged\" | \"unknown\" -/\n")
+	fmt.Fprintf(&b, "def collectShape : String := %s\n\n", leanStr(fa.collect))
+	b.WriteString("/-- why something was not recognised -/\n")
+	b.WriteString("def notes : List String := [")
+	for i, n := range fa.notes {
+		if i > 0 {
+			b.WriteString(", ")
+		}
+		b.WriteString(leanStr(n))
+	}
+	b.WriteString("]\n\n")
 	b.WriteString("end PV.Gen.FetchConsts\n")
 	return b.String(), nil
 }
